@@ -248,6 +248,36 @@ pub fn run(ctx: &mut Ctx) {
         }
         exec(ctx, &s, limit, &gen::const_cuts(s.len(), 1));
     }
+    // ---- limits raised above the default and declarations around the default and around the limit:
+    // "within the payload limit" is the limit in force on this connection, whatever it is
+    let mut idx = 0u64;
+    for limit in [51_200usize, 51_201, 60_000, 204_800, u32::MAX as usize] {
+        for n in [51_199usize, 51_200, 51_201, 59_999, 60_000, 60_001, 204_800, 204_801, limit - 1, limit, limit.saturating_add(1).min(u32::MAX as usize)] {
+            for (ei, (eline, _)) in EXPECT_LINES.iter().enumerate() {
+                for version in 0..2usize {
+                    idx += 1;
+                    if !ctx.mine(idx) {
+                        continue;
+                    }
+                    if quick && (idx + ei as u64) % 3 != 0 {
+                        continue;
+                    }
+                    let mut s = format!("PUT /big HTTP/1.{}\r\n{}\r\nContent-Length: {}\r\n\r\n", version, eline, n).into_bytes();
+                    let hdr_end = s.len();
+                    // the body is withheld except for a few bytes in some cases
+                    if (idx % 4) == 0 {
+                        s.extend_from_slice(b"0123456789");
+                    }
+                    ctx.rep.count("streams_with_large_declarations");
+                    if exec(ctx, &s, limit, &[]) {
+                        continue;
+                    }
+                    exec(ctx, &s, limit, &[hdr_end - 1]);
+                    exec(ctx, &s, limit, &[hdr_end - 2, hdr_end]);
+                }
+            }
+        }
+    }
     server_family(ctx);
 }
 
